@@ -503,3 +503,127 @@ def check_class_split(P, R, key="factor_analysis:FactorAnalysisBase.fit_using_ar
                         continue
                     R.violation(rule, key, what, "the per-class partition list is (also) built by something else than appending `X[y == c]` for every class c: a partition may then hold only part of a class (e.g. one row block), and the per-class E-step estimates the latent variables from partial sessions", d.stmt.lineno)
     return n
+
+
+# ---------------------------------------------------------------------------------------------------------------------
+# COVER.pairs: pairwise (tree) folds that lose the unpaired last element of an odd-length level
+_PAIRS_EXAMPLE = '''
+def tree(parts, combine):
+    parts = list(parts)
+    while len(parts) > 1:
+        parts = [combine(a, b) for a, b in zip(parts[0::2], parts[1::2])]
+    return parts[0]
+
+def tree2(items):
+    while len(items) > 1:
+        items = [items[i] + items[i + 1] for i in range(0, len(items) - 1, 2)]
+    return items[0]
+
+def tree_ok(parts, combine):
+    parts = list(parts)
+    while len(parts) > 1:
+        nxt = [combine(a, b) for a, b in zip(parts[0::2], parts[1::2])]
+        if len(parts) % 2:
+            nxt.append(parts[-1])
+        parts = nxt
+    return parts[0]
+'''
+
+
+def _stride2(sub):
+    """X[a::2] -> (X name, a) ; else None"""
+    if isinstance(sub, ast.Subscript) and isinstance(sub.slice, ast.Slice) and isinstance(sub.value, ast.Name) and const_value(sub.slice.step) == 2 and sub.slice.upper is None:
+        lo = const_value(sub.slice.lower) if sub.slice.lower is not None else 0
+        return sub.value.id, lo
+    return None
+
+
+def pair_sites(fnode):
+    """[(node, list name, description)] of pairings of neighbours X[2k], X[2k+1] inside one function."""
+    out = []
+    for n in ast.walk(fnode):
+        if isinstance(n, ast.Call) and isinstance(n.func, ast.Name) and n.func.id == "zip" and len(n.args) == 2:
+            a, b = _stride2(n.args[0]), _stride2(n.args[1])
+            if a and b and a[0] == b[0] and {a[1], b[1]} == {0, 1}:
+                out.append((n, a[0], src(n)))
+        if isinstance(n, ast.Call) and isinstance(n.func, ast.Name) and n.func.id == "range" and len(n.args) == 3 and const_value(n.args[2]) == 2:
+            up = n.args[1]
+            # range(0, len(X) - 1, 2) / range(0, len(X) // 2 * 2, 2)
+            names = [x for x in ast.walk(up) if isinstance(x, ast.Call) and isinstance(x.func, ast.Name) and x.func.id == "len" and x.args and isinstance(x.args[0], ast.Name)]
+            if names and not (isinstance(up, ast.Call)):
+                out.append((n, names[0].args[0].id, src(n)))
+    return out
+
+
+def odd_tail_handled(fnode, lst):
+    """Evidence that the unpaired element of an odd-length list is kept: a parity test on the length together with a use of
+    the last element (X[-1] / a name bound to it), or itertools.zip_longest."""
+    parity = any(isinstance(n, ast.BinOp) and isinstance(n.op, ast.Mod) and const_value(n.right) == 2 for n in ast.walk(fnode))
+    last = any(isinstance(n, ast.Subscript) and isinstance(n.value, ast.Name) and isinstance(n.slice, ast.UnaryOp) and isinstance(n.slice.op, ast.USub) and const_value(n.slice.operand) == 1 for n in ast.walk(fnode))
+    longest = any(isinstance(n, (ast.Name, ast.Attribute)) and src(n).endswith("zip_longest") for n in ast.walk(fnode))
+    return (parity and last) or longest
+
+
+def check_pairwise_folds(P, R, modules, rule="COVER.pairs"):
+    """Every neighbour-pairing reduction in `modules` keeps the unpaired last element.  Expected count on today's tree is
+    zero sites of this shape (the i-vector tree pairs stats[i] with stats[len//2+i] and is checked by COVER.tree), so the
+    matcher is exercised on an embedded example on every run."""
+    ex = ast.parse(_PAIRS_EXAMPLE)
+    got = {fn.name: (len(pair_sites(fn)), odd_tail_handled(fn, None)) for fn in ex.body if isinstance(fn, ast.FunctionDef)}
+    if got != {"tree": (1, False), "tree2": (1, False), "tree_ok": (1, True)}:
+        R.error(f"COVER.pairs matcher self-check failed: {got}")
+    n = 0
+    for f in P.all_funcs(modules):
+        for node, lst, txt in pair_sites(f.node):
+            n += 1
+            R.check(odd_tail_handled(f.node, lst), rule, f.key, txt[:70], "the unpaired last element of an odd-length level is carried over", f"`{lst}` is reduced by pairing neighbours, and nothing keeps the last element when its length is odd: with 3, 5, 6, 7 ... partial results some of them never reach the result (exact only for powers of two)", node.lineno)
+    R.ok(rule, "package", f"{n} neighbour-pairing reductions in {', '.join(modules)}; matcher exercised on the embedded example", "")
+    return n
+
+
+def fold_whole(P, f, name, depth=0):
+    """How is the list `name` consumed inside f?  'whole' (a recognised fold over every element), 'partial' (an explicit
+    slice / single element that drops the rest), or 'unknown'."""
+    verdicts = []
+    for n in walk_no_nested(f.node):
+        if isinstance(n, ast.Call):
+            fn = src(n.func).split(".")[-1]
+            args = list(n.args)
+            if fn == "reduce" and len(args) >= 2 and isinstance(args[1], ast.Name) and args[1].id == name:
+                verdicts.append("whole")
+            elif fn in ("sum", "fsum") and args and isinstance(args[0], ast.Name) and args[0].id == name:
+                verdicts.append("whole")
+            elif fn == "sum" and len(args) == 2 and src(args[0]) == f"{name}[1:]" and src(args[1]) == f"{name}[0]":
+                verdicts.append("whole")
+            elif any(isinstance(a, ast.Name) and a.id == name for a in args) and depth < 2:
+                tg = [t[1] for t in P.resolve_callee(n.func, f) if t[0] == "repo"]
+                if tg:
+                    bound = P.bind_args(tg[0], n.args, n.keywords)
+                    pn = next((p_ for p_, a_ in bound.items() if isinstance(a_, ast.Name) and a_.id == name), None)
+                    if pn:
+                        sub = fold_whole(P, tg[0], pn, depth + 1)
+                        if sub == "unknown" and pair_sites(tg[0].node):
+                            sub = "whole-if-pairs-ok"  # a pairing tree: COVER.pairs decides whether the odd tail survives
+                        verdicts.append(sub)
+                elif fn in ("list", "tuple"):
+                    pass
+        if isinstance(n, ast.For) and isinstance(n.iter, ast.Name) and n.iter.id == name:
+            verdicts.append("whole")
+        if isinstance(n, ast.For) and src(n.iter) == f"{name}[1:]":
+            first = any(isinstance(x, ast.Subscript) and isinstance(x.value, ast.Name) and x.value.id == name and const_value(x.slice) == 0 for x in walk_no_nested(f.node))
+            verdicts.append("whole" if first else "partial")
+        if isinstance(n, ast.Subscript) and isinstance(n.value, ast.Name) and n.value.id == name and isinstance(n.slice, ast.Slice):
+            par = getattr(n, "_parent", None)
+            if not (isinstance(par, ast.For) and src(n) == f"{name}[1:]") and not (isinstance(par, ast.Call) and src(par.func).split(".")[-1] == "sum") and not _stride2(n):
+                verdicts.append("partial")
+    if any(lst == name for _n, lst, _t in pair_sites(f.node)):
+        verdicts.append("whole-if-pairs-ok")  # a pairing tree over this very list: COVER.pairs decides about the odd tail
+    # `x = list(name)` aliases
+    for st, t, v, k in stores(f):
+        if isinstance(t, ast.Name) and t.id != name and isinstance(v, ast.Call) and src(v.func) in ("list", "tuple") and v.args and isinstance(v.args[0], ast.Name) and v.args[0].id == name and depth < 3:
+            verdicts.append(fold_whole(P, f, t.id, depth + 1))
+    if "partial" in verdicts:
+        return "partial"
+    if any(v in ("whole", "whole-if-pairs-ok") for v in verdicts):
+        return "whole"
+    return "unknown"
